@@ -121,7 +121,7 @@ func (n *node) model(h *hostModel, labels map[int]*rj.Obj) rj.Value {
 			}
 			o.Put(rj.IndexKey(uint32(i)), k.model(h, labels))
 		}
-	case nObj:
+	case nObj, nFn, nWrap: // functions and wrappers may carry extra own members too
 		for i, k := range n.kids {
 			enum := !(i < len(n.nonEnum) && n.nonEnum[i])
 			o.Define(rj.K(n.keys[i]), k.model(h, labels), enum)
@@ -229,8 +229,10 @@ func (n *node) js(sb *strings.Builder, cnt *int, labels map[int]string) string {
 	case nWrap:
 		ctor := map[rj.Kind]string{rj.Number: "Number", rj.String: "String", rj.Bool: "Boolean"}[n.leaf.Kind]
 		fmt.Fprintf(sb, "var %s=new %s(%s);", name, ctor, jsPrim(n.leaf))
+		n.jsMembers(sb, cnt, labels, name)
 	case nFn:
 		fmt.Fprintf(sb, "var %s=function(){};", name)
+		n.jsMembers(sb, cnt, labels, name)
 	case nArr:
 		fmt.Fprintf(sb, "var %s=[];", name)
 		for i, k := range n.kids {
@@ -594,4 +596,19 @@ func unesc(s string) []uint16 {
 		out = append(out, uint16(s[i]))
 	}
 	return out
+}
+
+// jsMembers emits the extra own members of a function or wrapper object.
+func (n *node) jsMembers(sb *strings.Builder, cnt *int, labels map[int]string, name string) {
+	for i, k := range n.kids {
+		e := k.js(sb, cnt, labels)
+		fmt.Fprintf(sb, "%s[%s]=%s;", name, jsStr(rj.U(n.keys[i])), e)
+	}
+}
+
+// with adds a member to a node (object, function or wrapper) and returns it.
+func (n *node) with(key string, kid *node) *node {
+	n.keys = append(n.keys, key)
+	n.kids = append(n.kids, kid)
+	return n
 }
